@@ -268,6 +268,16 @@ def twin_variant(rng, cfg, grp, e):
         d2 = rng.randrange(65536) if rng.random() < 0.7 else d
         changed = changed or (b2, c2, d2) != (b, c, d)
     else:
+        if e[1] != 0 and rng.random() < 0.7:
+            # a corrected block B that is accepted as a text address: every bit other than group
+            # type, version and the cell address is a don't-care (PTY, TP, TA, MS, DI ...)
+            grp_ = b >> 12
+            ver_ = (b >> 11) & 1
+            keep = 0xF800 | (3 if grp_ == 0 else 31 if grp_ == 2 else 1 if (grp_ == 10 and ver_ == 0) else 0)
+            b2 = (b & keep) | (rng.randrange(65536) & ~keep & 0xFFFF)
+            if rng.random() < 0.5:
+                b2 = b ^ ((1 << rng.choice([2, 3, 4, 5, 6, 9, 10])) & ~keep & 0xFFFF)
+            changed = changed or b2 != b
         if not used_c(cfg, b, e) and rng.random() < 0.9:
             c2 = rng.choice([rng.randrange(65536), c ^ 0x0100, c ^ 1])
             changed = changed or c2 != c
